@@ -186,6 +186,19 @@ func mkBin(op string, a, b *Term) *Term {
 			}
 		}
 	}
+	// freshly made objects are never nil: make(chan ..), make(map ..), make([]T ..), new / &T{}, function values
+	if op == "==" || op == "!=" {
+		nonNil := func(t *Term) bool {
+			switch t.Op {
+			case "mkchan", "mkmap", "mkslice", "alloc", "closure", "fn":
+				return true
+			}
+			return false
+		}
+		if a.IsNil() && nonNil(b) || b.IsNil() && nonNil(a) {
+			return boolT(op == "!=")
+		}
+	}
 	if a.IsConst() && b.IsConst() && (op == "==" || op == "!=") {
 		if a.Aux == "nil" || b.Aux == "nil" || a.Aux == "true" || a.Aux == "false" {
 			eq := a.Aux == b.Aux
